@@ -25,7 +25,7 @@ func vfFile(alias string) (*ast.File, *ast.SelectorExpr) {
 	return f, se
 }
 
-// VerifC16SharedResolver: two goroutines decorate different files and share one syntax-based
+// VerifC16SharedResolver: two goroutines decorate different files (or the same file) and share one syntax-based
 // identifier resolver (created with New(), or WithResolver(read-only guess map)); each makes one or
 // two ResolveIdent calls. No data race in any schedule; each result equals the call made alone.
 func VerifC16SharedResolver() {
@@ -37,6 +37,10 @@ func VerifC16SharedResolver() {
 	}
 	f1, s1 := vfFile("")
 	f2, s2 := vfFile("al")
+	if vfChoice("sameFile", 2) == 1 {
+		// both goroutines work on the same file (two decorators decorating one parsed file)
+		f2, s2 = f1, s1
+	}
 	calls := 1 + vfChoice("calls", 2)
 	var p1, p2 string
 	var e1, e2 error
